@@ -375,6 +375,10 @@ func init() {
 		c.servers = []server{{name: "s0", listen: []addr{{0, "", 443, 443}}, routes: []uroute{h(1), h(2), h(4)}}}
 		c.policies = []policy{{subjects: []int{4, 5, 6}, issuers: "a"}, {subjects: []int{3}, issuers: "a"}}
 	})
+	// one site bound to two interfaces on the HTTPS port (upstream issue 3443): both need a redirect listener
+	mk([]string{"a.test"}, func(c *kase) {
+		c.servers = []server{{name: "s0", listen: []addr{{0, "10.1.1.1", 443, 443}, {0, "127.0.0.1", 443, 443}}, routes: []uroute{h(1)}}}
+	})
 	// catch-all with TLS connection policies (on-demand shape)
 	mk([]string{"a.test"}, func(c *kase) {
 		c.servers = []server{{name: "s0", listen: []addr{{0, "", 443, 443}}, tls: 2, routes: []uroute{{}}}}
